@@ -227,11 +227,11 @@ Definition funcs_connect (h : res) : res :=
 
 (* ---- lib/ipc_setup.c: handle_new_connection (auth_result = 0; allocation, mkdtemp, chmod succeed) *)
 Definition handle_new_connection (s : state) : state :=
-  (* qb_ipcs_connection_alloc: refcount 1, reference on the service; receive_buf; mkdtemp *)
+  (* qb_ipcs_connection_alloc: calloc (closed_notified = 0), refcount 1, reference on the service; receive_buf; mkdtemp *)
   let h0 := held s in
   let h1 := mkRes (fd_setup h0) (fd_req h0) (fd_evt h0) (pe_auth h0) (pe_setup h0) (pe_req h0) (ring_req h0)
                   (ring_rsp h0) (ring_evt h0) (ctl_map h0) (ctl_file h0) (names h0) true (authrec h0) true in
-  let s1 := with_svc (with_refc (with_cst (with_held s h1) INACTIVE) 1) (svc_ref s + 1) (active s) (closedn s) in
+  let s1 := with_svc (with_refc (with_cst (with_held (with_notified s false) h1) INACTIVE) 1) (svc_ref s + 1) (active s) (closedn s) in
   let s2 := add_log s1 [CbAccept] in
   if acc =? 0 then
     let s3 := with_cst (with_held s2 (funcs_connect (held s2))) ACTIVE in
